@@ -357,9 +357,21 @@ func runC09(c *Ctx) {
 		if c.Thorough() {
 			nproc = 4
 		}
+		// the second (fourth) fresh process compiles the same (config, source) pairs in the REVERSE order: a compile
+		// whose outcome depends on what the process compiled before (a process-wide cache of parsed trees, of
+		// resolved overloads, …) then differs from this process, which went config by config (seed c09_6)
+		inLines := strings.Split(strings.TrimRight(in.String(), "\n"), "\n")
+		var rev bytes.Buffer
+		for j := len(inLines) - 1; j >= 0; j-- {
+			rev.WriteString(inLines[j] + "\n")
+		}
 		for pi := 0; pi < nproc; pi++ {
+			reversed := pi%2 == 1
 			cmd := exec.Command(self, "__c09child")
 			cmd.Stdin = bytes.NewReader(in.Bytes())
+			if reversed {
+				cmd.Stdin = bytes.NewReader(rev.Bytes())
+			}
 			var so, se bytes.Buffer
 			cmd.Stdout, cmd.Stderr = &so, &se
 			if err := cmd.Run(); err != nil {
@@ -371,9 +383,18 @@ func runC09(c *Ctx) {
 				r.Mismatch("c09-child", "fresh process", fmt.Sprint(len(sel), " digests"), fmt.Sprint(len(lines), " lines"))
 				break
 			}
+			if reversed {
+				for a, b := 0, len(lines)-1; a < b; a, b = a+1, b-1 {
+					lines[a], lines[b] = lines[b], lines[a]
+				}
+				r.Count("cross-process-reversed-order", len(lines))
+			}
 			for j, i := range sel {
 				r.Count("cross-process-compared", 1)
-				if lines[j] != digests[i] {
+				if lines[j] != digests[i] && reversed {
+					r.Violate(Violation{What: "a fresh process that compiled the same pairs in the reverse order compiled this source and options to a different program: the outcome of Compile depends on what was compiled before", Key: "c09:compile-depends-on-history",
+						Input: map[string]string{"config": items[i].b.cfg.Name, "source": items[i].src}, Expect: digests[i], Got: lines[j]})
+				} else if lines[j] != digests[i] {
 					r.Violate(Violation{What: "a fresh process compiled the same source and options to a different program", Key: "c09:cross-process-differs",
 						Input: map[string]string{"config": items[i].b.cfg.Name, "source": items[i].src}, Expect: digests[i], Got: lines[j]})
 				}
